@@ -85,6 +85,11 @@ package parser
 //@ assigns alloc S$Str, alloc S$Val
 //@ at call Sprintf #1 before assert format: arg0 == "%s-?\\s*(.+?)\\s*-?%s|%s-?\\s*(\\w+)(?:\\s+((?:%v)+?))?\\s*-?%s"
 //@ at call Sprintf #1 before assert operands: len(arg1) == 5 && arg1[0] == box(regexp.QuoteMeta(delims[0]), string) && arg1[1] == box(regexp.QuoteMeta(delims[1]), string) && arg1[2] == box(regexp.QuoteMeta(delims[2]), string) && arg1[4] == box(regexp.QuoteMeta(delims[3]), string)
+// the characters of the tag-right delimiter enter the pattern quoted (as literals)
+//@ ghost q Str = ""
+//@ at call QuoteMeta #1: q = result
+//@ at call append #1 before assert classQuoted: arg1[0] == "[^" + q + "]"
+//@ at call QuoteMeta #2 before assert prefixQuoted: arg0 == delims[3][0:idx]
 //@ loop 1 invariant parts: fresh(exclusion) && len(exclusion) <= _pos && (_pos > 0 ==> len(exclusion) >= 1) && sameold("S$Str")
 //@ ensures built: result != nil && forall(k, 0, 4, tmd(result, k) == delims[k])
 
